@@ -66,6 +66,7 @@ struct FileFacts {
     casts: Vec<(String, String)>,
     statics: Vec<String>,
     cfg_keys: BTreeSet<String>,
+    cfg_values: BTreeSet<(String, String)>, // key = "value" inside cfg / cfg! / cfg_attr / target_feature(enable); ("detected", f) for is_x86_feature_detected!(f)
     macro_defs: Vec<(String, Vec<String>)>,
     inner_attrs: Vec<String>,
     lints: Vec<String>,
@@ -84,6 +85,23 @@ fn collect_cfg_keys(ts: TokenStream, out: &mut BTreeSet<String>) {
                 out.insert(i.to_string());
             }
             TokenTree::Group(g) => collect_cfg_keys(g.stream(), out),
+            _ => {}
+        }
+    }
+}
+/// `key = "value"` pairs inside a token stream (cfg predicates at any depth)
+fn collect_cfg_values(ts: TokenStream, out: &mut BTreeSet<(String, String)>) {
+    let toks: Vec<TokenTree> = ts.into_iter().collect();
+    for (i, t) in toks.iter().enumerate() {
+        match t {
+            TokenTree::Group(g) => collect_cfg_values(g.stream(), out),
+            TokenTree::Ident(id) => {
+                if let (Some(TokenTree::Punct(p)), Some(TokenTree::Literal(l))) = (toks.get(i + 1), toks.get(i + 2)) {
+                    if p.as_char() == '=' {
+                        out.insert((id.to_string(), l.to_string().trim_matches('"').to_string()));
+                    }
+                }
+            }
             _ => {}
         }
     }
@@ -141,6 +159,9 @@ impl<'a> Scan<'a> {
             let text = norm_tokens(&a.meta.to_token_stream());
             if p.is_ident("cfg") || p.is_ident("cfg_attr") {
                 collect_cfg_keys(a.meta.to_token_stream(), &mut self.f.cfg_keys);
+            }
+            if p.is_ident("cfg") || p.is_ident("cfg_attr") || p.is_ident("target_feature") {
+                collect_cfg_values(a.meta.to_token_stream(), &mut self.f.cfg_values);
             }
             if p.is_ident("allow") || p.is_ident("expect") || p.is_ident("warn") || p.is_ident("deny") || p.is_ident("forbid") || p.is_ident("cfg_attr") {
                 self.f.lints.push(text.clone());
@@ -297,11 +318,27 @@ impl<'a, 'ast> Visit<'ast> for Scan<'a> {
         self.f.casts.push((norm_tokens(&c.expr.to_token_stream()), norm_tokens(&c.ty.to_token_stream())));
         syn::visit::visit_expr_cast(self, c);
     }
+    fn visit_attribute(&mut self, a: &'ast syn::Attribute) {
+        // every attribute, wherever it sits (items, statements, blocks, expressions, fields)
+        let p = a.path();
+        if p.is_ident("cfg") || p.is_ident("cfg_attr") || p.is_ident("target_feature") {
+            collect_cfg_values(a.meta.to_token_stream(), &mut self.f.cfg_values);
+        }
+        syn::visit::visit_attribute(self, a);
+    }
     fn visit_macro(&mut self, m: &'ast syn::Macro) {
         let name = m.path.segments.last().map(|s| s.ident.to_string()).unwrap_or_default();
         self.f.macros.insert(name.clone());
         if name == "cfg" {
             collect_cfg_keys(m.tokens.clone(), &mut self.f.cfg_keys);
+            collect_cfg_values(m.tokens.clone(), &mut self.f.cfg_values);
+        }
+        if name.starts_with("is_") && name.ends_with("_feature_detected") {
+            for t in m.tokens.clone() {
+                if let TokenTree::Literal(l) = t {
+                    self.f.cfg_values.insert(("detected".to_string(), l.to_string().trim_matches('"').to_string()));
+                }
+            }
         }
         // identifiers inside macro arguments are code too (debug_assert!, write!, ...)
         collect_idents_tokens(m.tokens.clone(), &mut self.f.idents);
@@ -835,6 +872,7 @@ fn main() {
         let _ = writeln!(facts_v, "  ff_casts := {};", coq_list(&ff.casts.iter().map(|(e, t)| format!("({}, {})", coq_str(e), coq_str(t))).collect::<Vec<_>>()));
         let _ = writeln!(facts_v, "  ff_statics := {};", coq_list(&ff.statics.iter().map(|s| coq_str(s)).collect::<Vec<_>>()));
         let _ = writeln!(facts_v, "  ff_cfg_keys := {};", coq_list(&ff.cfg_keys.iter().map(|s| coq_str(s)).collect::<Vec<_>>()));
+        let _ = writeln!(facts_v, "  ff_cfg_values := {};", coq_list(&ff.cfg_values.iter().map(|(k, v)| format!("({}, {})", coq_str(k), coq_str(v))).collect::<Vec<_>>()));
         let _ = writeln!(facts_v, "  ff_stdpaths := {};", coq_list(&ff.stdpaths.iter().map(|s| coq_str(s)).collect::<Vec<_>>()));
         let _ = writeln!(facts_v, "  ff_trait_impls := {};", coq_list(&ff.trait_impls.iter().map(|(t, ty)| format!("({}, {})", coq_str(t), coq_str(ty))).collect::<Vec<_>>()));
         let _ = writeln!(facts_v, "  ff_macro_defs := {} |}}.\n", coq_list(&ff.macro_defs.iter().map(|(n, b)| format!("({}, {})", coq_str(n), coq_list(&b.iter().map(|s| coq_str(s)).collect::<Vec<_>>()))).collect::<Vec<_>>()));
